@@ -24,7 +24,9 @@ class TranslateError(Exception):
     pass
 
 
-STACKS = ["F", "T", "R", "S", "P", "C", "Q"]   # fragments, typeFragments, frames, fields, |T|-types, types, properties
+STACKS = ["F", "T", "R", "S", "P", "C", "Q", "E", "M", "U", "G", "L"]
+# fragments, typeFragments, frames, fields, |T|-types, types, properties; pointers currentEdge/Template/Fun/Gantt/InstanceLine
+POINTERS = {"E": "currentEdge", "M": "currentTemplate", "U": "currentFun", "G": "currentGantt", "L": "currentInstanceLine"}
 
 # ---------------------------------------------------------------------------------------------------------------
 # How callback arguments matter for the stack effect (everything else is names / kinds / positions):
@@ -693,7 +695,7 @@ def infer_sigs(prods, nts, attr_nts, eff):
           type / the enclosing frame on T, P and R); productions needing more are left to be flagged;
     clobber (lo = none): any production, error productions included, that may reset the stack.
     virtual nonterminals (abandoned material at an `error`): fixpoint over all their suffix productions."""
-    CAPS = {"F": 0, "T": 2, "R": 1, "S": 0, "P": 2, "C": 0, "Q": 0}
+    CAPS = {"F": 0, "T": 2, "R": 1, "S": 0, "P": 2, "C": 0, "Q": 0, "E": 0, "M": 1, "U": 1, "G": 1, "L": 0}
     sig = {nt: [None] * len(STACKS) for nt in nts}
     by_lhs = {}
     for p in prods:
@@ -742,7 +744,9 @@ def infer_sigs(prods, nts, attr_nts, eff):
                             break
                     if new is None:
                         new = "clob"
-                if lo[nt] != new and (lo[nt] is None or new == "clob" or lo[nt] == "clob" or new[0] < lo[nt][0] or new[1] != lo[nt][1]):
+                if lo[nt] == "clob":
+                    continue       # sticky
+                if lo[nt] != new and (lo[nt] is None or new == "clob" or new[0] < lo[nt][0] or new[1] != lo[nt][1]):
                     lo[nt] = new
                     changed = True
             if not changed:
@@ -769,7 +773,7 @@ def infer_sigs(prods, nts, attr_nts, eff):
                     clob = clob or cl or st is None
                     if nt in virtual:
                         wn, wd = max(wn, min(req, 6)), max(wd, min(dp, 6))
-                    elif req <= cap:
+                    elif req <= (cap if nt != "Uppaal" else (1 if STACKS[si] == "R" else 0)):
                         wn, wd = max(wn, req), max(wd, min(dp, req))
                 if clob and lo[nt] != "clob":
                     lo[nt] = "clob"
@@ -868,6 +872,22 @@ def translate(repo="/repo", verif=None):
                         cbs.append(name)
     attr_nts = {nt for nt in nts if types.get(nt) in NUM_TYPES}
     eff = load_effects(verif)
+    ptr, ptr_reset = pointer_scan(repo, cbs)
+    for variant, sts in ptr.items():
+        if variant in eff:
+            for st in sts:
+                e = eff[variant][STACKS.index(st)]
+                e["need0"] = max(e["need0"], 1)
+    for variant, sts in ptr_reset.items():
+        if variant in eff:
+            for st in sts:
+                eff[variant][STACKS.index(st)]["reset"] = True
+    for name in properties_back_scan(repo):
+        if name in cbs:
+            ptr.setdefault(name, set()).add("Q")
+            if name in eff:
+                e = eff[name][STACKS.index("Q")]
+                e["need0"] = max(e["need0"], 1)
     sig = infer_sigs(all_prods, all_nts, attr_nts, eff)
     info = dict(nonterminals=len(nts), productions=len(prods), error_productions=sum(1 for p in prods if p.has_error),
                 callbacks=len([c for c in cbs if not c.startswith("ps_")]), callback_variants=len(cbs),
@@ -965,15 +985,147 @@ def translate(repo="/repo", verif=None):
     for n in all_nts:
         w("  | .%s => ⟨[%s]⟩" % (lean_ident(n), ", ".join(sig_lean(s) for s in sig[n])))
     w("")
+    w("/-- GENERATED from the builder sources: callback dereferences the pointer without a guard -/")
+    w("def ptrDeref : CB → Stack → Bool")
+    for variant in cbs:
+        for st in sorted(ptr.get(variant, [])):
+            w("  | .%s, .%s => true" % (lean_ident(variant), st))
+    w("  | _, _ => false")
+    w("")
+    w("/-- GENERATED from the builder sources: callback may leave the pointer null (`= nullptr` on some path) -/")
+    w("def ptrMayReset : CB → Stack → Bool")
+    for variant in cbs:
+        for st in sorted(ptr_reset.get(variant, [])):
+            w("  | .%s, .%s => true" % (lean_ident(variant), st))
+    w("  | _, _ => false")
+    w("")
     w("def startNT : NT := .Uppaal")
     w("def numRealProds : Nat := %d" % len(prods))
     w("end UtapModel.Gen.Grammar")
     text = "\n".join(out) + "\n"
     info["callback_list"] = cbs
+    info["pointer_derefs"] = {k: sorted(v) for k, v in sorted(ptr.items())}
+    info["pointer_may_reset"] = {k: sorted(v) for k, v in sorted(ptr_reset.items())}
     info["prod_names"] = [p.name for p in all_prods]
     info["prods"] = all_prods
     info["sig"] = sig
     return text, info
+
+
+def pointer_scan(repo, cbs):
+    """Tie for the pointer stacks: which callbacks dereference a `current...` pointer without a guard.
+    Reads the most derived definition of every callback in the builder sources.  -> {variant: set(stack letters)}"""
+    bodies = {}
+    rank = {"ExpressionBuilder": 0, "StatementBuilder": 1, "DocumentBuilder": 2}
+    for f in ("ExpressionBuilder.cpp", "StatementBuilder.cpp", "DocumentBuilder.cpp"):
+        src = strip_comments(open(os.path.join(repo, "src", f)).read())
+        for m in re.finditer(r"^[A-Za-z_:<>\*&\s]+?\b(\w+)::(\w+)\s*\(([^)]*)\)\s*(?:const\s*)?\{", src, re.M):
+            cls, name = m.group(1), m.group(2)
+            if cls not in rank:
+                continue
+            i, depth = m.end(), 1
+            while i < len(src) and depth:
+                if src[i] == "{":
+                    depth += 1
+                elif src[i] == "}":
+                    depth -= 1
+                i += 1
+            body = src[m.end():i - 1]
+            key = (name, len([a for a in m.group(3).split(",") if a.strip()]))
+            if key not in bodies or rank[cls] >= bodies[key][0]:
+                bodies[key] = (rank[cls], body)
+    by_name = {}
+    for (name, ar), (r, body) in bodies.items():
+        by_name.setdefault(name, []).append((ar, body))
+    helpers = {"get_block": "U"}      # get_block() dereferences currentFun when no block is open
+
+    def derefs(body):
+        out = set()
+        for st, ptr in POINTERS.items():
+            pats = [r"\b%s\s*->" % ptr, r"\*\s*%s\b" % ptr]
+            if st == "U":
+                pats.append(r"\bget_block\s*\(\s*\)")
+            first = None
+            for pat in pats:
+                mm = re.search(pat, body)
+                if mm and (first is None or mm.start() < first):
+                    first = mm.start()
+            if first is None:
+                continue
+            before = body[:first]
+            # an assignment that makes it non-null, or a guard, before the first dereference
+            guard = re.search(r"!\s*%s\b|if\s*\(\s*%s\b|%s\s*(!=|==)\s*nullptr|%s\s*&&|%s\s*\?|\b%s\s*=[^=]" % ((ptr,) * 6), before)
+            if st == "U" and re.search(r"\baddFunction\s*\(", before):
+                guard = True
+            if not guard:
+                out.add(st)
+        return out
+
+    def may_reset(body):
+        """the pointer can be left null by a conditional `= nullptr` (no unconditional set follows at statement level)"""
+        out = set()
+        for st, ptr in POINTERS.items():
+            last = None
+            for mm in re.finditer(r"\b%s\s*=\s*nullptr|\b%s\s*\.\s*reset\s*\(\s*\)" % (ptr, ptr), body):
+                last = mm
+            if last is None:
+                continue
+            after = body[last.end():]
+            depth, top = 0, ""
+            for ch in after:        # text at brace depth 0 after the last reset
+                if ch == "{":
+                    depth += 1
+                elif ch == "}":
+                    depth -= 1
+                    if depth < 0:
+                        depth = 0
+                        top = ""    # we left the block that contained the reset: what follows is at an outer level
+                        continue
+                elif depth == 0:
+                    top += ch
+            if re.search(r"\b%s\s*=[^=]" % ptr, top) or (st == "U" and re.search(r"\baddFunction\s*\(", top)):
+                continue
+            out.add(st)
+        return out
+
+    res, res2 = {}, {}
+    for variant in cbs:
+        if variant.startswith("ps_"):
+            continue
+        base = variant
+        while base not in by_name and "_" in base:
+            base = base.rsplit("_", 1)[0]
+        if base not in by_name:
+            continue
+        # the grammar uses the overload with the fewest parameters when a name is overloaded (proc_message(sync), ...)
+        alts = sorted(by_name[base])
+        body = alts[0][1]
+        d = derefs(body)
+        if d:
+            res[variant] = d
+        r = may_reset(body)
+        if r:
+            res2[variant] = r
+    return res, res2
+
+
+def properties_back_scan(repo):
+    """Q stack: callbacks of the property builders that use `properties.back()` with no `properties.empty()` test before it."""
+    src = strip_comments(open(os.path.join(repo, "src", "property.cpp")).read())
+    out = []
+    for m in re.finditer(r"^void\s+(\w+)::(\w+)\s*\(([^)]*)\)\s*\{", src, re.M):
+        i, depth = m.end(), 1
+        while i < len(src) and depth:
+            if src[i] == "{":
+                depth += 1
+            elif src[i] == "}":
+                depth -= 1
+            i += 1
+        body = src[m.end():i - 1]
+        mm = re.search(r"\bproperties\s*\.\s*back\s*\(", body)
+        if mm and not re.search(r"properties\s*\.\s*(empty|push_back|emplace_back)\s*\(", body[:mm.start()]):
+            out.append(m.group(2))
+    return sorted(set(out))
 
 
 def source_need_scan(repo):
